@@ -168,13 +168,13 @@ func (c *canon) object(id int) {
 // cannot be serialised (then it is simply explored).
 func (e *Engine) digest(st *State) (string, bool) {
 	c := &canon{e: e, st: st, h: sha1.New(), ids: map[int]int{}, ok: true}
-	c.w(fmt.Sprintf("wa%v ", st.WatchAll))
+	c.w(fmt.Sprintf("wa%v lt%v", st.WatchAll, st.LazyTimers))
 	c.w(fmt.Sprintf("cur%d pre%d tf%d pool%v va%v cc%v ct%d", st.Cur, st.Preempts, st.TimerFired, st.PoolReuse, st.VisibleAtomics, st.ConcreteClock, st.ClockTick))
 	for _, w := range st.Watched {
 		c.w("W" + c.objRef(w))
 	}
 	for _, th := range st.Threads {
-		c.w(fmt.Sprintf("T%d s%d %s w%d p%v y%v q%v", th.ID, th.Status, th.BlockWhy, th.WaitRecv, th.Panicking, th.Yielded, th.Quiesced))
+		c.w(fmt.Sprintf("T%d s%d %s w%d p%v y%v q%v", th.ID, th.Status, th.BlockWhy, th.WaitRecv, th.Panicking, th.Yielded, th.Quiesced) + fmt.Sprintf("tw%v tk%v", th.TimerWait, th.TimerKick))
 		if th.WaitRecv != 0 {
 			c.w(c.objRef(th.WaitRecv))
 		}
